@@ -209,3 +209,21 @@ impl ServerContext {
         self.inner.client.on_response(response).await;
     }
 }
+
+#[cfg(feature = "verif-hooks")]
+impl ServerContext {
+    /// Verification only: touches every lock of the server context once, uncontended, calling
+    /// `label(name)` right before each, so that a harness tracing lock operations can name them.
+    pub fn verif_touch_locks(&self, label: &mut dyn FnMut(&str)) {
+        label("cancellations");
+        drop(self.cancellations.try_lock());
+        label("analysis");
+        drop(self.inner.analysis.try_read());
+        label("workspace_manager");
+        if let Ok(wm) = self.inner.workspace_manager.try_read() {
+            wm.verif_touch_locks(label);
+        }
+        self.inner.client.verif_touch_locks(label);
+        self.inner.file_diagnostic.verif_touch_locks(label);
+    }
+}
